@@ -95,7 +95,16 @@ Definition recv_close (st : cstate) (payload msg : bytes) : cstate * list bytes 
           let st1 := record_close_code st code true in
           let '(st2, w, _) := write_control_close st1 (format_close_message code []) in
           (dead st2, w, RClose code text)
-    | _ =>
+    | [_] =>
+        (* one byte: no room for a status code; rejected by the source when Gen.close_body1_rejected *)
+        if close_body1_rejected then
+          let '(st1, w) := handle_protocol_error st msg in (dead st1, w, RProtoErr)
+        else
+          let code := c_CloseNoStatusReceived in
+          let st1 := record_close_code st code true in
+          let '(st2, w, _) := write_control_close st1 (format_close_message code []) in
+          (dead st2, w, RClose code [])
+    | [] =>
         let code := c_CloseNoStatusReceived in
         let st1 := record_close_code st code true in
         let '(st2, w, _) := write_control_close st1 (format_close_message code []) in
